@@ -160,6 +160,9 @@ func trPlacement() string {
 	checkArgsUntouched("core/task/constraint/constraints.go", "Constraints", "MergeParent")
 	checkArgsUntouched("core/task/constraint/attributes.go", "Attributes", "Satisfy")
 	checkArgsUntouched("core/task/match.go", "Resources", "Satisfy")
+	// what a descriptor wants depends on the descriptor (role-level binds), not only on its class:
+	// the OFFERS handler must ask GetWantsForDescriptor for the descriptor at hand each time
+	checkWantsPerDescriptor()
 	var b strings.Builder
 	b.WriteString("(* regenerated on every run by harness/cmd/translate (placement) from\n   makeTaskForMesosResources in core/task/scheduler.go *)\n")
 	b.WriteString("From Verif Require Import Common.\nOpen Scope N_scope.\n")
@@ -268,4 +271,63 @@ func checkArgsUntouched(rel, recv, name string) {
 		}
 		return true
 	})
+}
+
+// mentionsIdent reports whether the type expression names the identifier (Wants, *Wants, pkg.Wants ...).
+func mentionsIdent(e ast.Expr, name string) bool {
+	found := false
+	ast.Inspect(e, func(n ast.Node) bool {
+		if id, ok := n.(*ast.Ident); ok && id.Name == name {
+			found = true
+		}
+		return !found
+	})
+	return found
+}
+
+// checkWantsPerDescriptor fails the run when resourceOffers keeps Wants / constraint lists in a
+// container of its own (a map or slice whose element type mentions Wants: a cache shared between
+// descriptors), or no longer calls GetWantsForDescriptor inside the descriptor loops (a for
+// statement), or calls it from a function literal other than the per-offer goroutine bodies that
+// contain those loops.
+func checkWantsPerDescriptor() {
+	fset, f := parseFile("core/task/scheduler.go")
+	fd := findFunc(f, "schedulerState", "resourceOffers")
+	if fd == nil || fd.Body == nil {
+		die("placement: method schedulerState.resourceOffers not found")
+	}
+	var loops []*ast.ForStmt
+	calls := 0
+	ast.Inspect(fd.Body, func(n ast.Node) bool {
+		switch x := n.(type) {
+		case *ast.MapType:
+			if mentionsIdent(x.Value, "Wants") || mentionsIdent(x.Key, "Wants") {
+				die("placement: resourceOffers keeps Wants in a map at %s - wants belong to a descriptor (role-level binds), "+
+					"the model computes them per descriptor", fset.Position(x.Pos()))
+			}
+		case *ast.ArrayType:
+			if mentionsIdent(x.Elt, "Wants") {
+				die("placement: resourceOffers keeps Wants in a slice at %s - the model computes them per descriptor", fset.Position(x.Pos()))
+			}
+		case *ast.ForStmt:
+			loops = append(loops, x)
+		case *ast.CallExpr:
+			if sel, ok := x.Fun.(*ast.SelectorExpr); ok && sel.Sel.Name == "GetWantsForDescriptor" {
+				calls++
+				inLoop := false
+				for _, l := range loops {
+					if x.Pos() >= l.Body.Pos() && x.End() <= l.Body.End() {
+						inLoop = true
+					}
+				}
+				if !inLoop {
+					die("placement: GetWantsForDescriptor is called outside the descriptor loops of resourceOffers at %s", fset.Position(x.Pos()))
+				}
+			}
+		}
+		return true
+	})
+	if calls == 0 {
+		die("placement: resourceOffers no longer calls GetWantsForDescriptor")
+	}
 }
